@@ -22,6 +22,15 @@ TNext == /\ l <= Len(Trace)
               IF E.ev = "cfg"
               THEN mon' = MonInit([N |-> E.N, TrigF |-> E.TrigF, MinF |-> E.MinF, MaxF |-> E.MaxF,
                                    ConstOn |-> E.ConstOn, SnapLen |-> E.SnapLen, winS |-> E.winS, winE |-> E.winE])
+              ELSE IF E.ev = "cfgparse"
+              THEN \* C03's quantifier "for all 0 <= min-secs <= max-secs": the daemon accepts every such configuration
+                   \* and builds its processor with exactly these lengths
+                   /\ UNCHANGED mon
+                   /\ LET valid == 0 <= E.min /\ E.min <= E.max /\ 0 <= E.preview
+                          v == (IF valid /\ E.err # "" THEN {"C03:valid-recording-lengths-rejected"} ELSE {})
+                               \cup (IF valid /\ E.err = "" /\ <<E.got_min, E.got_max, E.got_preview>> # <<E.min, E.max, E.preview>>
+                                     THEN {"C03:recording-lengths-misread"} ELSE {})
+                      IN IF v = {} THEN TRUE ELSE PrintT(<<"VIOL", l, v>>)
               ELSE IF E.ev = "realsinks"
               THEN \* real CPTV recorders on all three sinks, output directory taken away and put back: no panic, every
                    \* published file decodes, and the final isolated blip at frame E.blip is recorded as C02/C03 demand
@@ -30,6 +39,8 @@ TNext == /\ l <= Len(Trace)
                           hi == E.blip + (IF E.MinF > 1 THEN E.MinF - 1 ELSE 0)
                           want == [i \in 1..(hi - lo + 1) |-> lo + i - 1]
                           v == (IF E.panic # "" THEN {"C12:panic"} ELSE {})
+                               \cup (IF E.panic # "" /\ "after_bad" \in DOMAIN E /\ E.after_bad
+                                     THEN {"C13:processing-does-not-resume-after-bad-frame"} ELSE {})
                                \cup (IF E.undecodable > 0 THEN {"C12:published-file-undecodable-after-failures"} ELSE {})
                                \cup (IF E.panic = "" /\ E.last # want THEN {"C12:not-recording-normally-after-failures"} ELSE {})
                       IN IF v = {} THEN TRUE ELSE PrintT(<<"VIOL", l, v>>)
